@@ -98,6 +98,8 @@ type c16Case struct {
 	Cache    int    `json:"route_cache_capacity,omitempty"` // > 0: the router caches dynamic matches (the probes are then issued twice, in two orders)
 	// CustomNF: a custom NotFound handler is installed (no global middleware); the probes are issued twice, in two orders
 	CustomNF bool `json:"custom_not_found_handler,omitempty"`
+	// Fallback: HandleFallbackRoute is on and a catch-all route "/*" for all nine methods is registered after the resource
+	Fallback bool `json:"fallback_route_for_all_methods,omitempty"`
 }
 
 func c16Gen(tier string, emit func(c16Case)) {
@@ -130,6 +132,10 @@ func c16Gen(tier string, emit func(c16Case)) {
 					if !grp {
 						// the same table on a router that caches dynamic matches (capacity 1 or 2: constant eviction)
 						emit(c16Case{Kind: "subset", Mask: mask, Uses: uses, Base: base, Thorough: tier == "thorough", Cache: 1 + (mask+bi)%2})
+					}
+					if !grp && (mask+bi)%2 == 1 {
+						// HandleFallbackRoute with a catch-all for all nine methods: the REST table still wins, HEAD included
+						emit(c16Case{Kind: "subset", Mask: mask, Uses: uses, Base: base, Thorough: tier == "thorough", Fallback: true})
 					}
 					if !grp && (mask+bi)%2 == 0 {
 						// with a custom NotFound handler (and no global middleware): matched and unmatched requests alternate
@@ -364,6 +370,9 @@ func c16Run(c c16Case, st *fw.Stats) []fw.Viol {
 	if c.CustomNF {
 		desc += " on a router with a custom NotFound handler"
 	}
+	if c.Fallback {
+		desc += " on a HandleFallbackRoute router with a catch-all route /* for all nine methods"
+	}
 
 	// expected table
 	var defs []refmodel.RouteDef
@@ -372,7 +381,13 @@ func c16Run(c c16Case, st *fw.Stats) []fw.Viol {
 		defs = append(defs, refmodel.RouteDef{Path: resPath + c16Table[a].path, Methods: c16Table[a].methods})
 		defAction = append(defAction, a)
 	}
-	tb, err := refmodel.NewTable(defs, refmodel.Opts{})
+	tbOpts := refmodel.Opts{}
+	if c.Fallback {
+		defs = append(defs, refmodel.RouteDef{Path: "/*", Methods: refmodel.Methods})
+		defAction = append(defAction, "*")
+		tbOpts.Fallback = true
+	}
+	tb, err := refmodel.NewTable(defs, tbOpts)
 	if err != nil {
 		panic(err)
 	}
@@ -456,7 +471,13 @@ func c16Run(c c16Case, st *fw.Stats) []fw.Viol {
 			if c.Cache > 0 {
 				r = rux.New(rux.CachingWithNum(uint16(c.Cache)))
 			}
+			if c.Fallback {
+				r = rux.New(rux.HandleFallbackRoute)
+			}
 			pv := try(func() {
+				if c.Fallback {
+					defer r.Any("/*", func(x *rux.Context) { rec.log = append(rec.log, "catch-all") })
+				}
 				ctl := c16New(c.Mask, c.Uses, rec)
 				if c.Group {
 					// two group middleware passed in a slice with spare capacity (append-in-place would alias)
@@ -483,6 +504,9 @@ func c16Run(c c16Case, st *fw.Stats) []fw.Viol {
 			// the order actually taken, from rux's own debug print of each registered route
 			var got []string
 			for _, mm := range c16DebugLine.FindAllStringSubmatch(buf.String(), -1) {
+				if mm[2] == "/*" {
+					continue // (the catch-all route of the Fallback cases is not part of the resource)
+				}
 				ms := strings.Split(mm[1], ",")
 				if a, ok := pathToAction[ms[0]+" "+mm[2]]; ok {
 					got = append(got, a)
@@ -499,7 +523,9 @@ func c16Run(c c16Case, st *fw.Stats) []fw.Viol {
 					add("resource:panic", fmt.Sprintf("%s: second registration panicked: %v", desc, pv))
 					return vs
 				}
-				if !c16CheckTable(r2, c, desc+" (registered a second time; its Uses() table is a shared map)", impl, resPath, resName, add) {
+				c2 := c
+				c2.Fallback = false // (the second router holds the resource only)
+				if !c16CheckTable(r2, c2, desc+" (registered a second time; its Uses() table is a shared map)", impl, resPath, resName, add) {
 					return vs
 				}
 			}
@@ -568,6 +594,11 @@ func c16CheckTable(r *rux.Router, c c16Case, desc string, impl []string, resPath
 		}
 		want = append(want, fmt.Sprintf("%s %s %s_%s mw=%d", strings.Join(ms, ","), resPath+c16Table[a].path, resName, strings.ToLower(a), mw))
 	}
+	if c.Fallback {
+		ms := append([]string(nil), refmodel.Methods...)
+		sort.Strings(ms)
+		want = append(want, fmt.Sprintf("%s /*  mw=0", strings.Join(ms, ",")))
+	}
 	sort.Strings(want)
 	got := routeSet(r)
 	if strings.Join(got, "; ") != strings.Join(want, "; ") {
@@ -621,7 +652,9 @@ func c16CheckRouter(r *rux.Router, rec *c16Rec, c c16Case, desc string, impl []s
 				continue
 			}
 			var wantLog []string
-			if res.Route >= 0 {
+			if res.Route >= 0 && defAction[res.Route] == "*" {
+				wantLog = append(wantLog, "catch-all")
+			} else if res.Route >= 0 {
 				a := defAction[res.Route]
 				id := ""
 				if ds := tb.Pats[res.Route].MatchAll(res.Path, 1); len(ds) > 0 {
@@ -657,7 +690,7 @@ var c16Spec = fw.Spec[c16Case]{
 	Workers: 1,
 	// the only nondeterminism is Go's map iteration order inside Resource (code under test): a confirmation replay may be retried
 	ReplayAttempts: 40,
-	Rule: "complete enumeration: all 128 subsets of the seven actions as controller method sets (generated types) x with/without Uses() (two distinct middleware, closures of one function literal, for every action, implemented or not) x base in {/, /api/, \"\", /{t}/, /{t:[a-z]{4}}/ (a variable in the base path, plain and with a regex), /v1.2/ (a dot in the base path)}; four resources at once next to a more specific dynamic route of the same first segment; three routers built from ONE slice of option values (each of the 3 caching options, capacities 1, 2, 16), two of them registering the same resource type with their own controller instance and requested alternately; a resource registered after its paths were already served by generic routes (route cache off / 2 / 64) and after a middleware-less group whose body called Use x outside a group / inside Group(/g) / inside Group(/) (group middleware passed with spare capacity) (+ outside a group on a router with a route cache of capacity 1 or 2, all probes issued twice in two orders) (+ outside a group on a router with a custom NotFound handler and no global middleware, all probes issued twice in two orders); the same controller (whose Uses() table is one shared map) registered twice; the registration order inside Resource is DRIVEN through the insertion order of the exported rux.RESTFulActions map and OBSERVED from rux's own debug print; registration is repeated until every permutation of the implemented actions (k<=4, thorough k<=6 on the plain base; all rotations of two base orders beyond) has been observed, or until >12 differently driven registrations all showed one and the same order of >=2 actions (the order then does not come from the map: counter registration_order_independent_of_map_order); " +
+	Rule: "complete enumeration: all 128 subsets of the seven actions as controller method sets (generated types) x with/without Uses() (two distinct middleware, closures of one function literal, for every action, implemented or not) x base in {/, /api/, \"\", /{t}/, /{t:[a-z]{4}}/ (a variable in the base path, plain and with a regex), /v1.2/ (a dot in the base path)}; four resources at once next to a more specific dynamic route of the same first segment; three routers built from ONE slice of option values (each of the 3 caching options, capacities 1, 2, 16), two of them registering the same resource type with their own controller instance and requested alternately; a resource registered after its paths were already served by generic routes (route cache off / 2 / 64) and after a middleware-less group whose body called Use x outside a group / inside Group(/g) / inside Group(/) (group middleware passed with spare capacity) (+ outside a group on a router with a route cache of capacity 1 or 2, all probes issued twice in two orders) (+ outside a group on a HandleFallbackRoute router with a catch-all route for all nine methods) (+ outside a group on a router with a custom NotFound handler and no global middleware, all probes issued twice in two orders); the same controller (whose Uses() table is one shared map) registered twice; the registration order inside Resource is DRIVEN through the insertion order of the exported rux.RESTFulActions map and OBSERVED from rux's own debug print; registration is repeated until every permutation of the implemented actions (k<=4, thorough k<=6 on the plain base; all rotations of two base orders beyond) has been observed, or until >12 differently driven registrations all showed one and the same order of >=2 actions (the order then does not come from the map: counter registration_order_independent_of_map_order); " +
 		"per observed order: Routes()/NamedRoutes() equal the documented table exactly, all 9 methods x 8 probe paths dispatch as the reference resolver says over that table (create never served by show, nothing else reachable), per-action middleware runs only for its action; non-pointer / non-struct / wrong-shaped controllers; non-trivial = a distinct (subset, order) registration",
 	Assume: []string{"runs single-threaded: RESTFulActions, the debug switch and the colour output are process-global", "Go's small-map iteration starts at a random offset of the insertion order; an order not seen within 400 draws is reported as a cap, never as a violation"},
 	Bounds: func(tier string) map[string]any {
